@@ -283,3 +283,68 @@ fn c17_posix_datetime() {
         kani::cover!(dt.time.second == 7200 && p.pos() == 7);
     }
 }
+
+/// `core::str::from_utf8` replacement for the abbreviation paths: it ASSERTS (does not assume) that every byte is ASCII,
+/// and for ASCII bytes the real function returns exactly this value; so the "technically impossible" invalid-UTF-8
+/// branch is shown unreachable instead of being explored through the UTF-8 validator's table-driven loop
+fn stub_from_utf8(v: &[u8]) -> Result<&str, core::str::Utf8Error> {
+    let i: usize = kani::any();
+    if i < v.len() { assert!(v[i] < 0x80); }
+    Ok(unsafe { core::str::from_utf8_unchecked(v) })
+}
+
+fn abbrev_byte(b: u8, quoted: bool) -> bool { b.is_ascii_alphabetic() || (quoted && (b.is_ascii_digit() || b == b'+' || b == b'-')) }
+
+//@harness c17_posix_abbreviation
+//@target shared::posix::Parser::{parse_abbreviation,parse_unquoted_abbreviation,parse_quoted_abbreviation} (src/shared/posix.rs)
+//@prop C17
+//@tier quick
+//@timeout 1200
+//@doc the standard-time abbreviation (parser at position 0).  Precondition: non-empty input.  Every window of 1..=34 bytes ("<" + 30 name bytes + ">" + lookahead; longer names are cut off by the 31st name byte): Ok(a) => a has 3..=30 bytes, equals the name bytes of the input (all ASCII letters, or letters/digits/+/- when quoted), the position is just after the name (after the closing ">"), a.as_str() does not panic; a 31st name byte => Err; no panic
+#[kani::proof]
+#[kani::stub(core::str::from_utf8, stub_from_utf8)]
+#[kani::unwind(33)]
+fn c17_posix_abbreviation() {
+    let bytes: [u8; 34] = kani::any();
+    let len: usize = kani::any(); kani::assume(1 <= len && len <= 34);
+    let tz = &bytes[..len];
+    let p = mk(tz, 0, kani::any());
+    let r = p.parse_abbreviation();
+    assert!(p.pos() <= len);
+    if let Ok(a) = r {
+        assert!(wf_abbrev(&a));
+        let quoted = tz[0] == b'<';
+        let start = if quoted { 1 } else { 0 };
+        let n = a.as_str().len();
+        assert!(p.pos() == start + n + start);
+        if quoted { assert!(tz[start + n] == b'>'); }
+        let i: usize = kani::any(); kani::assume(i < n);
+        assert!(a.as_str().as_bytes()[i] == tz[start + i] && abbrev_byte(tz[start + i], quoted));
+        kani::cover!(n == 30 && quoted);
+        kani::cover!(n == 3 && !quoted);
+    }
+}
+
+//@harness c17_posix_abbreviation_anywhere
+//@target shared::posix::Parser::{parse_abbreviation,parse_unquoted_abbreviation,parse_quoted_abbreviation} at an arbitrary start position (the DST abbreviation) (src/shared/posix.rs)
+//@prop C17
+//@tier quick
+//@timeout 1200
+//@bounded start position 0..=33, at most 34 bytes after it (input up to 67 bytes)
+//@doc the contract the glue harnesses rely on for BOTH abbreviations.  Precondition: not at the end of the input.  Ok(a) => a has 3..=30 bytes, the position advanced by at least 3 and not past the end; Err otherwise; no panic.  On jiff 0.2.8 this FAILS: the "abbreviation too long" error message slices `self.tz[start..i]` with the loop counter i (= 30) instead of the end position, which panics when the abbreviation starts after byte 30 (finding: TimeZone::posix("AAAAAAAAAAAAAAAAAAAAAAAAAAAAAA0BBBBBBBBBBBBBBBBBBBBBBBBBBBBBBB"))
+#[kani::proof]
+#[kani::stub(core::str::from_utf8, stub_from_utf8)]
+#[kani::unwind(33)]
+fn c17_posix_abbreviation_anywhere() {
+    let bytes: [u8; 67] = kani::any();
+    let len: usize = kani::any(); kani::assume(len <= 67);
+    let pos: usize = kani::any(); kani::assume(pos <= 33 && pos < len && len - pos <= 34);
+    let tz = &bytes[..len];
+    let p = mk(tz, pos, kani::any());
+    let r = p.parse_abbreviation();
+    assert!(p.pos() <= len);
+    if let Ok(a) = r {
+        assert!(wf_abbrev(&a));
+        assert!(p.pos() >= pos + 3);
+    }
+}
